@@ -404,6 +404,20 @@ detach(struct bitstream bs)
 }
 
 
+/* Give back the unord block referenced by a retrieve job that is dropped
+   before it has finished. */
+static void
+drop_unord_link(struct unord_blk *ub)
+{
+  if (ub == NULL)
+    return;
+  if (ub->complete)
+    free(ub);                   /* already removed from unord_q by the parser */
+  else
+    ub->complete = true;        /* still in unord_q: the parser will free it */
+}
+
+
 /* Release any input blocks that are behind current base position. */
 static void
 advance(struct detached_bitstream bs)
@@ -657,7 +671,18 @@ do_retrieve(void)
 
   if (rv == MORE) {
     Trace(("Retriever blocked waiting for input"));
-    enqueue(retr_q, rb);
+    if (rb->curr_pos.offset >= head_offs) {
+      enqueue(retr_q, rb);
+    }
+    else {
+      /* The parser went past this speculative job while it was running and
+         has released the input it would need next: drop it like advance()
+         drops queued stale jobs. */
+      drop_unord_link(rb->unord_link);
+      decoder_free(&rb->ds);
+      free(rb);
+      work_units++;
+    }
     check_invariants();
     return;
   }
@@ -838,7 +863,7 @@ do_scan(void)
     return;
   }
 
-  if (pos_le(bs->pos, parser_bs.pos)) {
+  if (pos_le(bs->pos, parser_bs.pos) || bs->offset < head_offs) {
     Trace(("Scanner found a known pattern at {%lu}",
            32ul + 32ul * bs->offset - bs->live));
     work_units++;
